@@ -59,6 +59,10 @@ def programs(rnd, n):
     fixed.append("longlist([%s]) :- use([%s|T]), more(T, f([%s])).\n" % (",".join(lv), ",".join(reversed(lv[:120])), ",".join(lv[i % 50] for i in range(150))))
     fixed.append("longlist2(X) :- X = [%s], a(%s), [%s] = X.\n" % (",".join(lv[:110]), ",".join(lv[100:130]), ",".join(lv[5:125])))
     fixed.append("manyargs(%s) :- g(%s), h([%s]).\n" % (",".join(lv[:120]), ",".join(reversed(lv[:118])), ",".join(lv[60:130] + lv[:60])))
+    # sources that differ only in terms that print alike (a quoted atom spelling a compound's arguments)
+    fixed.append("colour(pair(red,green)).\nshape(point(1,2)).\nl([x,y]).\ng(f(a)) :- h(k(a,b)).\n")
+    fixed.append("colour(pair('red,green')).\nshape('point(1,2)').\nl(['x,y']).\ng('f(a)') :- h(k('a,b')).\n")
+    fixed.append("both(pair('red,green'), pair(red,green)) :- t(['x,y'],[x,y]), t([x,y],['x,y']).\n")
     out.extend(fixed)
     # compilations that raise at different stages (syntax, visitor, code generation of an expression,
     # generator limits): whatever they leave behind must not change later outputs
